@@ -17,7 +17,7 @@ ALPHABET = [0, 1, 2, 3, 4, 48, 128, 129, 130, 133, 255]
 TREE_TARGETS = {"asn1", "x509_cert", "x509_exts", "x509_name", "x509_crl", "x509_req", "cms", "pkcs8", "sm2_sig", "sm2_ct", "sm9_sig", "sm9_ct", "sm9_key"}
 TEXT_TARGETS = {"pem", "base64", "hex", "http"}
 TARGETS = ["asn1", "oid", "x509_cert", "x509_exts", "x509_name", "x509_crl", "x509_req", "cms", "pkcs8", "pem", "base64", "hex", "sm2_sig", "sm2_ct", "sm2_point", "sm9_sig", "sm9_ct",
-           "sm9_key", "tls_record", "tls_cbc", "tls13_gcm", "http"]
+           "sm9_key", "tls_record", "tls_cbc", "tls13_gcm", "http", "tls13_inner", "tls_cbc_inner"]
 
 
 def edit_programs(cfg, limit=None):
